@@ -10,7 +10,7 @@
      nearly  : number of leading main statements that precede the function declarations (their variables are global)
      main    : <<statement>>
    Rule names: "undeclared" "redeclared" "type:<position>" "const" "loop" "missing-return" "nonpublic" "article".                  *)
-EXTENDS Integers, Sequences, FiniteSets, TLC
+EXTENDS Integers, Sequences, FiniteSets, TLC, Precedence
 
 TB(x) == [b |-> x]
 ERR == TB("!")               \* the type of an expression that is already counted as ill-formed
@@ -205,6 +205,7 @@ TE(P, sc, e) ==
         (IF ~HasStruct(P, e.s) THEN R(ERR, {"undeclared"})
          ELSE LET sd == Struct(P, e.s)
               IN  R([s |-> e.s], (IF sd.foreign /\ ~sd.pub THEN {"nonpublic"} ELSE {}) \cup TNew(P, sc, sd, e.args, 1)))
+    ELSE IF e.k = "chain" THEN TE(P, sc, Tree(e.items))
     ELSE IF e.k = "none" THEN Quiet(NONE)
     ELSE R(ERR, {"unknown-expression"})
 
